@@ -45,8 +45,8 @@ CHECKS = {
  "C12": ("exploration", "metamorphic monotonicity across option levels, request-log oracle, and a rapid state machine comparing a shared Options value with fresh ones",
          "Every world (honest or with one fault) is verified under all four option combinations with a recording getter: accept(more checks) implies accept(fewer), no fetch without GetCollateral, CRL URLs only with CheckRevocations, FMSPC / CA named in URLs; histories through one shared Options value must match fresh options step by step and the stateless expectation (incl. collateral twins: same quote, later and worse collateral); identical calls give identical verdicts; the caller's time set is never modified.",
          "One real-clock scenario for Options.Now == nil; lateness is inconclusive.", "DESIGN.md §4 C12"),
- "C13": ("exploration", "exact-value oracle over generated DER encodings of the SGX extension, listed malformations must error (rapid + native fuzz)",
-         "Own DER encoder emits any order, integer width, wrong types and trailing bytes; well-formed encodings must yield exactly the generated values, malformed ones an error; unknown neighbour members and the legacy wrapped form may be refused but never yield other values; a -race companion decodes different certificates in parallel.",
+ "C13": ("exploration", "exact-value oracle over generated DER encodings of the SGX extension and byte-level differential testing against an own strict DER reader; listed malformations must error (rapid + native fuzz)",
+         "Own DER encoder emits any order, integer width, wrong types and trailing bytes; well-formed encodings must yield exactly the generated values, malformed ones an error; unknown neighbour members and the legacy wrapped form may be refused but never yield other values; a -race companion decodes different certificates in parallel; a reference reader classifies arbitrary bytes (well formed / malformed as listed / unclassified) for a differential check over tree and byte edits, for histories over hundreds of certificates with revisits, and for a native fuzz target.",
          "Duplicated / unknown OIDs and a missing sub-extension among >= 4 are don't-care.", "DESIGN.md §4 C13"),
  "C14": ("exploration", "policy messages x quotes: conversion rules and the C08 reference model on the message's literal fields (rapid)",
          "Each field absent / empty / right size / one short / one long, SVN minimums around 2^16, list shapes; conversion must fail on the listed malformations, and a converted policy must validate exactly as the message literally says without crashing.",
